@@ -258,18 +258,23 @@ theorem good_delayedOne (F : Facts15) [DeepCopy F] (fuel c : Nat) (name : String
     · exact Good.pure' _ trivial
   · exact Good.pure' _ trivial
 
+theorem good_delayedBoth (F : Facts15) [DeepCopy F] (fuel : Nat) (order : DelayOrder) (c : Nat) (name : String) (t : Nat)
+    (pop : Bool) : Good n na T (delayedBoth F fuel order c name t pop) Any := by
+  unfold delayedBoth
+  cases order with
+  | allFirst => exact Good.bind (good_delayedAll _ _ _ _) (fun t1 _ => good_delayedOne _ _ _ _ _ _)
+  | oneFirst => exact Good.bind (good_delayedOne _ _ _ _ _ _) (fun t1 _ => good_delayedAll _ _ _ _)
+
 theorem good_appendImpl (F : Facts15) [DeepCopy F] (fuel : Nat) (name : String) (t c : Nat) (hc : n ≤ c ∨ c ∈ T) :
     Good n na T (appendImpl F fuel name t c) Any := by
   unfold appendImpl
-  refine Good.bind (good_delayedAll _ _ _ _) (fun t1 _ => ?_)
-  refine Good.bind (good_delayedOne _ _ _ _ _ _) (fun t2 _ => ?_)
+  refine Good.bind (good_delayedBoth _ _ _ _ _ _ _) (fun t2 _ => ?_)
   exact Good.updCls _ _ hc (fun _ => ⟨rfl, rfl, rfl⟩)
 
 theorem good_insertImpl (F : Facts15) [DeepCopy F] (fuel idx : Nat) (name : String) (t c : Nat) (hc : n ≤ c ∨ c ∈ T) :
     Good n na T (insertImpl F fuel idx name t c) Any := by
   unfold insertImpl
-  refine Good.bind (good_delayedAll _ _ _ _) (fun t1 _ => ?_)
-  refine Good.bind (good_delayedOne _ _ _ _ _ _) (fun t2 _ => ?_)
+  refine Good.bind (good_delayedBoth _ _ _ _ _ _ _) (fun t2 _ => ?_)
   exact Good.updCls _ _ hc (fun _ => ⟨rfl, rfl, rfl⟩)
 
 end SpyneModel.Derive
